@@ -1,7 +1,7 @@
 #!/bin/sh
 # runs every registered check's quick tier sequentially and prints one summary line per check
 cd /verif
-for c in C01 C02 C03 C04 C05 C06 C13 C14 C15 C20 C17 C09 C12 C07 C10 C16; do
+for c in C01 C02 C03 C04 C05 C06 C13 C14 C15 C20 C17 C09 C12 C07 C10 C16 C08; do
   S=$(date +%s)
   ./bin/check $c --tier quick > /tmp/runall_$c.log 2>&1
   RC=$?
